@@ -106,6 +106,7 @@ func (p *Program) genVC(con *Contract, sorts map[string]string) (vc *VC, err err
 	if err != nil {
 		return vc, fmt.Errorf("%s: modifies: %v", con.Pos, err)
 	}
+	hasReads := len(fc.lastReads) > 0
 	tmap := map[string]modTarget{}
 	for _, t := range targets {
 		tmap[t.comp] = t
@@ -139,6 +140,9 @@ func (p *Program) genVC(con *Contract, sorts map[string]string) (vc *VC, err err
 			for _, comp := range sortedKeys(ex.state.heap) {
 				if comp == "alloc" {
 					continue
+				}
+				if hasReads && strings.HasPrefix(comp, "GH.") {
+					continue // byte counters of the readers named by reads(...) and of their tee chains
 				}
 				srt := ex.state.sorts[comp]
 				entryT := baseName(comp, 0)
